@@ -269,7 +269,7 @@ def eval_items(items):
         counts["showbias"][1] += 1
         if res:
             under = any("_" in v for col in case["gvals"] for v in col) and case["ncol"] > 1
-            if res.startswith("by_min-bootstrap") or (case["normalize"] == "by_min" and case.get("boot") and ("NaN" in res or "lower > upper" in res)):
+            if res.startswith("by_min-bootstrap") or (case["normalize"] == "by_min" and case.get("boot") and ("NaN" in res or "lower > upper" in res or "Quantiles must be in the range" in res)):
                 key = "C18/bounded/by_min-bootstrap"
             elif under:
                 key = "C18/bounded/underscore-in-group-values"
